@@ -705,6 +705,14 @@ def comparator_matrix(ctx, facts, roles, f, s2n, op, cfg):
             elif val == "Some" and okey is None:
                 okey = (rel, None)
         groups.setdefault((kinds.get(1), kinds.get(2)), []).append((conv, v, okey))
+    # every result is decided on the two primitives: a case that returns without the to-primitive result of both operands
+    # (a fast path keyed on the operands' own kinds — arrays ordered element by element, say) is decided by another rule
+    for gk in sorted(groups, key=str):
+        if gk[0] is None or gk[1] is None:
+            outs = sorted({show_expr(strip_refs(v))[:70] for _, v, _ in groups[gk]})
+            ctx.fail("K2.case", "%s: a result without to-primitive of %s (%s)" % (op, "both operands" if gk == (None, None) else "one operand", cfg),
+                     "the comparator for %s returns %s on paths that have not converted both operands with to-primitive: the result is decided by something other than the relational comparison of the two primitives" % (op, outs[:3]),
+                     where=f.where(), fn=f.key)
     # fold ordering-keyed constant cases into one reading per (kinds, conversion state)
     for gk, lst in list(groups.items()):
         if not any(o is not None for _, _, o in lst):
